@@ -2,6 +2,8 @@ import Proofs.Lemmas.AutogradChain
 import Proofs.Lemmas.AutogradExp
 import Proofs.Lemmas.AutogradZero
 import Proofs.Lemmas.AutogradSemantic
+import Proofs.Lemmas.AutogradGrad
+import Proofs.Lemmas.AutogradBatch
 import Proofs.Lemmas.AutogradLocalSO3a
 import Proofs.Lemmas.AutogradLocalSO3b
 import Proofs.Lemmas.AutogradLocalSE3a
@@ -563,5 +565,368 @@ theorem sim3_JlInv_bernoulli (x : sim3 ℝ) :
       let A2 := A.mul A
       DMat.sub (DMat.add (DMat.sub (DMat.one 7) (DMat.smul (1/2) A)) (DMat.smul (1/12) A2)) (DMat.smul (1/720) (A2.mul A2)) := by
   simp [sim3JlInv]
+
+/-! ## 7. Pass 3 — zero vector / identity element at full strength, `SE3_Log`, `Jinvp`, regimes instead of `TransSpec`,
+and the property in its own terms (`.grad` along the true retraction)
+
+§5 shows that at the zero vector / identity the backward passes are the division-free maps `c ↦ c[:-1]`, `c ↦ (c,0)`.  Here: these maps
+*are the true derivatives* of the coded forward passes there, for all four groups. -/
+
+/-- **`Exp.backward` at the zero vector is the true derivative, every group** (`Jl(0) = 1`, Taylor branches of `so3_Exp`, `so3_Jl`,
+series branch of `calcQ`, regime 1 of `rxso3_Ws`): a curve of algebra elements through `0` with velocity `d` is mapped by the coded
+`Exp` to a curve through the identity with left-perturbation tangent `d`. -/
+theorem Exp_tangent_zero (g : Grp) (eps : ℝ) (heps : 0 < eps) (x : ℝ → DVec ℝ) (d : DVec ℝ) (hd : d.length = g.adim)
+    (hx : LCurve g.adim x d) (hx0 : x 0 = DVec.zero g.adim) :
+    GTangent g (fun t => expF g eps (x t)) d :=
+  exp_tangent_zero g eps heps x d hd hx hx0
+
+/-- non-vacuity: the ray `t ↦ t·d` passes through the zero vector with velocity `d` -/
+example : ∃ x : ℝ → DVec ℝ, LCurve 7 x [1, 2, 3, 0.3, -0.2, 0.5, 0.1] ∧ x 0 = DVec.zero (Grp.Sim3).adim :=
+  ⟨fun t => DVec.smul t [1, 2, 3, 0.3, -0.2, 0.5, 0.1], lcurve_ray _ _, by
+    show DVec.smul 0 [1, 2, 3, 0.3, -0.2, 0.5, 0.1] = DVec.zero (Grp.Sim3).adim
+    rw [smul_zero_left]; rfl⟩
+
+/-- `se3_Exp.backward` at rotation part zero, **any translation part** (`calcQ(τ, 0) = ½ hat τ`) -/
+theorem se3_Exp_tangent_zero_rotation (eps : ℝ) (heps : 0 < eps) (x : ℝ → DVec ℝ) (d0 d1 d2 d3 d4 d5 : ℝ)
+    (hx : LCurve 6 x [d0, d1, d2, d3, d4, d5]) (hzp : v3 (x 0) 3 = ⟨0, 0, 0⟩) :
+    GTangent .SE3 (fun t => expF .SE3 eps (x t)) ((JlMat .SE3 eps (x 0)).mulVec [d0, d1, d2, d3, d4, d5]) :=
+  se3Exp_tangent_zerorot eps heps x d0 d1 d2 d3 d4 d5 hx hzp
+
+/-- non-vacuity: translation part `(1, -1, 2) + t·(…)`, rotation part through `0` -/
+example : ∃ x : ℝ → DVec ℝ, LCurve 6 x [1, 0, 0, 0.3, -0.2, 0.5] ∧ v3 (x 0) 3 = ⟨0, 0, 0⟩ ∧ v3 (x 0) ≠ ⟨0, 0, 0⟩ := by
+  refine ⟨fun t => [1 + t, -1, 2, t * 0.3, t * (-0.2), t * 0.5], ?_, by simp [v3], by simp [v3]⟩
+  intro i hi
+  interval_cases i
+  · simpa using ((hasDerivAt_id (0:ℝ)).const_add (1:ℝ))
+  · simpa using (hasDerivAt_const (0:ℝ) (-1:ℝ))
+  · simpa using (hasDerivAt_const (0:ℝ) (2:ℝ))
+  · simpa using ((hasDerivAt_id (0:ℝ)).mul_const (0.3:ℝ))
+  · simpa using ((hasDerivAt_id (0:ℝ)).mul_const (-0.2:ℝ))
+  · simpa using ((hasDerivAt_id (0:ℝ)).mul_const (0.5:ℝ))
+
+/-- `rxso3_Exp.backward` at rotation part zero, any log-scale -/
+theorem rxso3_Exp_tangent_zero_rotation (eps : ℝ) (heps : 0 < eps) (x : ℝ → DVec ℝ) (d0 d1 d2 d3 : ℝ)
+    (hx : LCurve 4 x [d0, d1, d2, d3]) (hz : v3 (x 0) = ⟨0, 0, 0⟩) :
+    GTangent .RxSO3 (fun t => expF .RxSO3 eps (x t)) ((JlMat .RxSO3 eps (x 0)).mulVec [d0, d1, d2, d3]) :=
+  rxso3Exp_tangent_zero eps heps x d0 d1 d2 d3 hx hz
+
+example : ∃ x : ℝ → DVec ℝ, LCurve 4 x [0.3, -0.2, 0.5, 1] ∧ v3 (x 0) = ⟨0, 0, 0⟩ ∧ nth (x 0) 3 = 0.7 := by
+  refine ⟨fun t => [t * 0.3, t * (-0.2), t * 0.5, 0.7 + t], ?_, by simp [v3], by simp⟩
+  intro i hi
+  interval_cases i
+  · simpa using ((hasDerivAt_id (0:ℝ)).mul_const (0.3:ℝ))
+  · simpa using ((hasDerivAt_id (0:ℝ)).mul_const (-0.2:ℝ))
+  · simpa using ((hasDerivAt_id (0:ℝ)).mul_const (0.5:ℝ))
+  · simpa using ((hasDerivAt_id (0:ℝ)).const_add (0.7:ℝ))
+
+/-- `sim3_Exp.backward` at the zero vector (regime 1 of `rxso3_Ws`).  Away from `τ = 0` regime 1 has *constant* coefficients, so the coded
+forward does not depend on `σ` there and the statement holds only up to the documented truncation. -/
+theorem sim3_Exp_tangent_zero (eps : ℝ) (heps : 0 < eps) (x : ℝ → DVec ℝ) (d0 d1 d2 d3 d4 d5 d6 : ℝ)
+    (hx : LCurve 7 x [d0, d1, d2, d3, d4, d5, d6]) (hzt : v3 (x 0) = ⟨0, 0, 0⟩) (hzp : v3 (x 0) 3 = ⟨0, 0, 0⟩) (hzs : nth (x 0) 6 = 0) :
+    GTangent .Sim3 (fun t => expF .Sim3 eps (x t)) ((JlMat .Sim3 eps (x 0)).mulVec [d0, d1, d2, d3, d4, d5, d6]) :=
+  sim3Exp_tangent_zero eps heps x d0 d1 d2 d3 d4 d5 d6 hx hzt hzp hzs
+
+/-- **`Log.backward` at the identity element is the true derivative, every group** (regime 3 of `SO3_Log`, Taylor branch of `so3_Jl_inv`,
+regime 1 of `rxso3_Ws` and its adjugate inverse): a curve through the identity with left-perturbation tangent `τ` is mapped by the
+coded `Log` to a curve of algebra elements with velocity `τ`. -/
+theorem Log_tangent_identity (g : Grp) (eps : ℝ) (heps : 0 < eps) (X : ℝ → DVec ℝ) (τ : DVec ℝ) (hτ : τ.length = g.adim)
+    (hX : GTangent g X τ) (h0 : X 0 = identG g) :
+    LCurve g.adim (fun t => logF g eps (X t)) τ :=
+  log_tangent_identity g eps heps X τ hτ hX h0
+
+/-- non-vacuity: the retraction of the identity is a curve through the identity with any tangent -/
+example : ∃ X : ℝ → DVec ℝ, GTangent .Sim3 X [1, 2, 3, 0.3, -0.2, 0.5, 0.1] ∧ X 0 = identG .Sim3 :=
+  ⟨fun t => retrF .Sim3 (2⁻¹) (identG .Sim3) (DVec.smul t [1, 2, 3, 0.3, -0.2, 0.5, 0.1]),
+    retr_tangent .Sim3 _ (by norm_num) _ _ rfl, by
+      show retrF .Sim3 (2⁻¹) (identG .Sim3) (DVec.smul 0 [1, 2, 3, 0.3, -0.2, 0.5, 0.1]) = identG .Sim3
+      rw [smul_zero_left]; exact retrF_zero .Sim3 _ (by norm_num) _ rfl⟩
+
+/-- `SO3_Log.backward` at `q = ±1` (either representative) -/
+theorem SO3_Log_tangent_identity (eps : ℝ) (heps : 0 < eps) (X : ℝ → DVec ℝ) (a0 a1 a2 : ℝ)
+    (hX : GTangent .SO3 X [a0, a1, a2]) (hv : (qt (X 0)).vec = ⟨0, 0, 0⟩) (hw : nth (X 0) 3 * nth (X 0) 3 = 1) :
+    LCurve 3 (fun t => logF .SO3 eps (X t)) ((JlInvMat .SO3 eps (logF .SO3 eps (X 0))).mulVec [a0, a1, a2]) :=
+  PP.AD.SO3Log_tangent_identity eps heps X a0 a1 a2 hX hv hw
+
+/-- `SE3_Log.backward` at rotation part `±1`, **any translation** -/
+theorem SE3_Log_tangent_identity (eps : ℝ) (heps : 0 < eps) (X : ℝ → DVec ℝ) (a0 a1 a2 a3 a4 a5 : ℝ)
+    (hX : GTangent .SE3 X [a0, a1, a2, a3, a4, a5]) (hv : (qt (X 0) 3).vec = ⟨0, 0, 0⟩) (hw : nth (X 0) 6 * nth (X 0) 6 = 1) :
+    LCurve 6 (fun t => logF .SE3 eps (X t)) ((JlInvMat .SE3 eps (logF .SE3 eps (X 0))).mulVec [a0, a1, a2, a3, a4, a5]) :=
+  PP.AD.SE3Log_tangent_identity eps heps X a0 a1 a2 a3 a4 a5 hX hv hw
+
+/-- non-vacuity: a pure translation `(1, -1, 2)`, the representative `q = -1` -/
+example : ∃ X : ℝ → DVec ℝ, GTangent .SE3 X [1, 0, 2, 0.3, -0.2, 0.5] ∧ (qt (X 0) 3).vec = ⟨0, 0, 0⟩ ∧ nth (X 0) 6 * nth (X 0) 6 = 1 :=
+  ⟨affine .SE3 [1, -1, 2, 0, 0, 0, -1] [1, 0, 2, 0.3, -0.2, 0.5], gtangent_affine _ _ _ rfl, by
+    rw [affine_zero _ _ _ rfl]; simp [qt, Quat.vec], by rw [affine_zero _ _ _ rfl]; simp⟩
+
+/-- `RxSO3_Log.backward` at rotation part `±1`, any scale -/
+theorem RxSO3_Log_tangent_identity (eps : ℝ) (heps : 0 < eps) (X : ℝ → DVec ℝ) (a0 a1 a2 a3 : ℝ)
+    (hX : GTangent .RxSO3 X [a0, a1, a2, a3]) (hs : nth (X 0) 4 ≠ 0) (hv : (qt (X 0)).vec = ⟨0, 0, 0⟩)
+    (hw : nth (X 0) 3 * nth (X 0) 3 = 1) :
+    LCurve 4 (fun t => logF .RxSO3 eps (X t)) ((JlInvMat .RxSO3 eps (logF .RxSO3 eps (X 0))).mulVec [a0, a1, a2, a3]) :=
+  PP.AD.RxSO3Log_tangent_identity eps heps X a0 a1 a2 a3 hX hs hv hw
+
+/-- `Sim3_Log.backward` at the identity element (`t = 0`, `q = ±1`, `s = 1`) -/
+theorem Sim3_Log_tangent_identity (eps : ℝ) (heps : 0 < eps) (X : ℝ → DVec ℝ) (a0 a1 a2 a3 a4 a5 a6 : ℝ)
+    (hX : GTangent .Sim3 X [a0, a1, a2, a3, a4, a5, a6]) (ht : v3 (X 0) = ⟨0, 0, 0⟩) (hv : (qt (X 0) 3).vec = ⟨0, 0, 0⟩)
+    (hw : nth (X 0) 6 * nth (X 0) 6 = 1) (hs : nth (X 0) 7 = 1) :
+    LCurve 7 (fun t => logF .Sim3 eps (X t)) ((JlInvMat .Sim3 eps (logF .Sim3 eps (X 0))).mulVec [a0, a1, a2, a3, a4, a5, a6]) :=
+  PP.AD.Sim3Log_tangent_identity eps heps X a0 a1 a2 a3 a4 a5 a6 hX ht hv hw hs
+
+/-- `so3_Jl_inv(x)·so3_Jl(x) = 1` (the other order of `so3_Jl_mul_JlInv`; both are polynomials in `hat x`) -/
+theorem so3_JlInv_mul_Jl (eps : ℝ) (x : Vec3 ℝ) (h : eps < x.norm) (h0 : 0 ≤ eps) (hs : Real.sin (1/2 * x.norm) ≠ 0) :
+    (so3JlInv eps x).mul (so3Jl eps x) = Mat3.one :=
+  so3JlInv_mul_so3Jl eps x h h0 hs
+
+/-- **`SE3_Log.backward` is the true derivative** in the closed-form regime (regime 1 of `SO3_Log`, `θ > eps`, `θ > 0.05` = closed form of
+`calcQ`, `sin(θ/2) ≠ 0`), for every translation: the block `−Jl_inv·Q·Jl_inv` is the derivative of `t ↦ Jl_inv(φ(t))·t(t)` with
+respect to the rotation.  Proof by the implicit equation `Exp(Log X) = X`, the proven `se3_Exp` derivative and `Jl·Jl_inv = Jl_inv·Jl = 1`. -/
+theorem SE3_Log_tangent (eps : ℝ) (heps : 0 ≤ eps) (X : ℝ → DVec ℝ) (a0 a1 a2 a3 a4 a5 : ℝ)
+    (hX : GTangent .SE3 X [a0, a1, a2, a3, a4, a5]) (hu : UnitQ .SE3 (X 0))
+    (hv : eps < (qt (X 0) 3).vec.norm) (hw : eps < |(qt (X 0) 3).w|)
+    (hφ : eps < (v3 (logF .SE3 eps (X 0)) 3).norm) (hq : (5:ℝ)/100 < (v3 (logF .SE3 eps (X 0)) 3).norm)
+    (hs : Real.sin (1/2 * (v3 (logF .SE3 eps (X 0)) 3).norm) ≠ 0) :
+    LCurve 6 (fun t => logF .SE3 eps (X t)) ((JlInvMat .SE3 eps (logF .SE3 eps (X 0))).mulVec [a0, a1, a2, a3, a4, a5]) :=
+  PP.AD.SE3Log_tangent eps heps X a0 a1 a2 a3 a4 a5 hX hu hv hw hφ hq hs
+
+/-- non-vacuity of `SE3_Log_tangent` (at `eps = 0`): translation `(1,-1,2)`, rotation by `π/2` about the `x`-axis,
+`q = (√2/2, 0, 0, √2/2)`; `Log` has rotation part `(π/2, 0, 0)` -/
+example : UnitQ .SE3 [1, -1, 2, Real.sqrt 2 / 2, 0, 0, Real.sqrt 2 / 2] ∧
+    (0:ℝ) < (qt ([1, -1, 2, Real.sqrt 2 / 2, 0, 0, Real.sqrt 2 / 2] : DVec ℝ) 3).vec.norm ∧
+    (0:ℝ) < |(qt ([1, -1, 2, Real.sqrt 2 / 2, 0, 0, Real.sqrt 2 / 2] : DVec ℝ) 3).w| ∧
+    (0:ℝ) < (v3 (logF .SE3 0 [1, -1, 2, Real.sqrt 2 / 2, 0, 0, Real.sqrt 2 / 2]) 3).norm ∧
+    (5:ℝ)/100 < (v3 (logF .SE3 0 [1, -1, 2, Real.sqrt 2 / 2, 0, 0, Real.sqrt 2 / 2]) 3).norm ∧
+    Real.sin (1/2 * (v3 (logF .SE3 0 [1, -1, 2, Real.sqrt 2 / 2, 0, 0, Real.sqrt 2 / 2]) 3).norm) ≠ 0 := by
+  set r := Real.sqrt 2 / 2 with hr
+  have hrpos : 0 < r := by rw [hr]; positivity
+  have hrr : r * r = 1/2 := by
+    rw [hr]; have := Real.mul_self_sqrt (show (0:ℝ) ≤ 2 by norm_num); nlinarith
+  have hq : qt ([1, -1, 2, r, 0, 0, r] : DVec ℝ) 3 = ⟨r, 0, 0, r⟩ := by simp [qt]
+  have hn : (⟨r, 0, 0, r⟩ : Quat ℝ).vec.norm = r := by
+    simp only [Vec3.norm, Vec3.normSq, Quat.vec, sqrt_real]
+    rw [show r * r + 0 * 0 + 0 * 0 = r * r by ring]; exact Real.sqrt_mul_self (le_of_lt hrpos)
+  have hw : (0:ℝ) < |(⟨r, 0, 0, r⟩ : Quat ℝ).w| := by
+    show 0 < |r|; rw [abs_of_pos hrpos]; exact hrpos
+  have hlog : SO3Log 0 (⟨r, 0, 0, r⟩ : Quat ℝ) = ⟨Real.pi / 2, 0, 0⟩ := by
+    rw [SO3Log_regime1 0 _ (by rw [hn]; exact hrpos) hw, hn]
+    simp only [Quat.vec, Vec3.smul, div_self (ne_of_gt hrpos), Real.arctan_one]
+    ext <;> simp
+    field_simp
+    norm_num
+  have hφ : v3 (logF .SE3 0 [1, -1, 2, r, 0, 0, r]) 3 = ⟨Real.pi / 2, 0, 0⟩ := by
+    simp only [logF, SE3Log, toSE3, hq, hlog, se3.toList]
+    simp [v3, Vec3.toList]
+  have hnorm : (⟨Real.pi / 2, 0, 0⟩ : Vec3 ℝ).norm = Real.pi / 2 := by
+    simp only [Vec3.norm, Vec3.normSq, sqrt_real]
+    rw [show Real.pi / 2 * (Real.pi / 2) + 0 * 0 + 0 * 0 = (Real.pi / 2) * (Real.pi / 2) by ring]
+    exact Real.sqrt_mul_self (by positivity)
+  rw [hφ, hq, hnorm, hn]
+  refine ⟨?_, hrpos, hw, by positivity, ?_, ?_⟩
+  · simp only [UnitQ, hq, Quat.normSq]; nlinarith
+  · have := Real.two_le_pi; linarith
+  · rw [show 1/2 * (Real.pi / 2) = Real.pi / 4 by ring, Real.sin_pi_div_four]; positivity
+
+/-! ### the curves that define gradients and Jacobians -/
+
+/-- **`Exp₁` is the true retraction, every group** (generalises `SO3_retraction_tangent`): `t ↦ Exp(t·τ) @ X`, along which the property
+defines `X.grad`, passes through `X` with exactly the velocity `liftG` that all local theorems use. -/
+theorem retraction_tangent (g : Grp) (eps : ℝ) (heps : 0 < eps) (X τ : DVec ℝ) (hτ : τ.length = g.adim) :
+    GTangent g (fun t => retrF g eps X (DVec.smul t τ)) τ :=
+  retr_tangent g eps heps X τ hτ
+
+/-- `Exp(0) @ X = X` -/
+theorem retraction_at_zero (g : Grp) (eps : ℝ) (heps : 0 < eps) (X : DVec ℝ) (hX : X.length = g.gdim) :
+    retrF g eps X (DVec.zero g.adim) = X :=
+  retrF_zero g eps heps X hX
+
+/-- `X · X⁻¹` is the identity element (unit quaternion, non-zero scale) -/
+theorem mul_inv_identity (g : Grp) (X : DVec ℝ) (hu : UnitQ g X) (hs : ScaleNZ g X) : mulF g X (invF g X) = identG g :=
+  mulF_invF g X hu hs
+
+/-- **group-valued outputs are read in the chart `Log(Y·Y₀⁻¹)`**: if `Y(t)` has left-perturbation tangent `τ`, its chart coordinates
+around `Y₀ = Y(0)` move with velocity `τ` -/
+theorem chart_reads_tangent (g : Grp) (eps : ℝ) (heps : 0 < eps) (Y : ℝ → DVec ℝ) (τ : DVec ℝ) (hτ : τ.length = g.adim)
+    (hY : GTangent g Y τ) (hu : UnitQ g (Y 0)) (hs : ScaleNZ g (Y 0)) :
+    LCurve g.adim (fun t => chartF g eps (Y 0) (Y t)) τ :=
+  chart_tangent g eps heps Y τ hτ hY hu hs
+
+/-! ### `Jinvp` -/
+
+/-- **`Jinvp` node = `Log` node + the kernel contract `DJSpec`.**  `Jinvp(X,p) = Jl_inv(Log X)·p` is not an autograd `Function`; the
+derivative of `φ ↦ Jl_inv(φ)·p` is PyTorch's autograd of built-in operations, the model parameter `dJ`.  `DJSpec dJ g eps φ₀ p₀` says
+exactly: along every differentiable curve `φ` through `φ₀` with velocity `d`, the entries of `Jl_inv(φ(t))` are differentiable and
+`dJ(φ₀,p₀)·d` is the derivative of `Jl_inv(φ(t))·p₀`. -/
+theorem Jinvp_node_of_contract (dJ : DJ ℝ) (hdJs : DJShape dJ) (eps : ℝ) (lt : List Ty) (env : ℝ → List (DVec ℝ)) (tan : List (DVec ℝ))
+    (g : Grp) (p q : Prog) (hq : NodeOK dJ eps lt env tan q) (hlog : NodeOK dJ eps lt env tan (.un .Log g p))
+    (hdj : DJSpec dJ g eps (logF g eps (eval eps (env 0) p)) (eval eps (env 0) q)) :
+    NodeOK dJ eps lt env tan (.bin .Jinvp g p q) :=
+  jinvp_nodeOK_of dJ hdJs eps lt env tan g p q hq hlog hdj
+
+/-- the contract is satisfiable: the explicit kernel `½ hat(p)` meets it for `SO3` at `φ = 0` (every `p`) -/
+theorem Jinvp_contract_satisfiable (eps : ℝ) (heps : 0 < eps) (p0 : DVec ℝ) (hp : p0.length = 3) :
+    DJSpec dJzero .SO3 eps [0, 0, 0] p0 :=
+  djSpec_SO3_zero eps heps p0 hp
+
+/-! ### the exact-gradient theorem on explicit regimes -/
+
+/-- local correctness of every `Exp` node evaluated in `ExpRegime` -/
+theorem Exp_node_of_regime (dJ : DJ ℝ) (eps : ℝ) (heps : 0 < eps) (lt : List Ty) (env : ℝ → List (DVec ℝ)) (tan : List (DVec ℝ))
+    (g : Grp) (p : Prog) (hp : NodeOK dJ eps lt env tan p) (hR : ExpRegime g eps (eval eps (env 0) p)) :
+    NodeOK dJ eps lt env tan (.un .Exp g p) :=
+  exp_nodeOK_of_regime dJ eps heps lt env tan g p hp hR
+
+/-- local correctness of every `Log` node evaluated in `LogRegime` -/
+theorem Log_node_of_regime (dJ : DJ ℝ) (eps : ℝ) (heps : 0 < eps) (lt : List Ty) (env : ℝ → List (DVec ℝ)) (tan : List (DVec ℝ))
+    (g : Grp) (p : Prog) (hp : NodeOK dJ eps lt env tan p) (hR : LogRegime g eps (eval eps (env 0) p)) :
+    NodeOK dJ eps lt env tan (.un .Log g p) :=
+  log_nodeOK_of_regime dJ eps heps lt env tan g p hp hR
+
+/-- **`Regimes` discharges `TransSpec`**: the abstract hypothesis of `gradient_exact_partial` follows from conditions on the *values* at
+the evaluation point. -/
+theorem transSpec_from_regimes (dJ : DJ ℝ) (hdJ : DJShape dJ) (eps : ℝ) (heps : 0 < eps) (lt : List Ty) (env : ℝ → List (DVec ℝ))
+    (tan : List (DVec ℝ)) (hleaf : ∀ i t, lt[i]? = some t → CurveOK t (fun s => (env s).getD i []) (tan.getD i []))
+    (p : Prog) (hR : Regimes dJ eps (env 0) p) : TransSpec dJ eps lt env tan p :=
+  transSpec_of_regimes dJ hdJ eps heps lt env tan hleaf p hR
+
+/-- algebraic programs satisfy `Regimes` trivially -/
+theorem regimes_algebraic (dJ : DJ ℝ) (eps : ℝ) (env0 : List (DVec ℝ)) (p : Prog) (hp : p.algebraic = true) :
+    Regimes dJ eps env0 p :=
+  regimes_of_algebraic dJ eps env0 p hp
+
+/-- the chart program's `Log` is always evaluated in a proved regime -/
+theorem chart_in_regime (g : Grp) (eps : ℝ) (Y : DVec ℝ) (hu : UnitQ g Y) (hs : ScaleNZ g Y) :
+    LogRegime g eps (mulF g Y (invF g Y)) :=
+  logRegime_chart g eps Y hu hs
+
+/-- **Exact gradients for every program whose transcendental nodes are evaluated in proved regimes** (`Regimes`: closed-form branches,
+zero vector / identity; `Jinvp`: the kernel contract).  `_partial`: what is *not* covered is exactly where the code itself is only
+approximately the derivative of its forward pass — Taylor branches at non-zero `θ ≤ eps`, the series branch of `calcQ` at `0 < θ ≤ 0.05`,
+regimes 2 (`|w| ≤ eps`) and 3 (`0 < ‖v‖ ≤ eps`) of `SO3_Log`, `sim3` `Exp` / `Sim3` `Log` away from zero / identity (truncated series). -/
+theorem gradient_exact_regimes_partial (dJ : DJ ℝ) (hdJ : DJShape dJ) (eps : ℝ) (heps : 0 < eps) (lt : List Ty)
+    (env : ℝ → List (DVec ℝ)) (tan : List (DVec ℝ)) (hE : EnvOK lt (env 0) tan)
+    (hleaf : ∀ i t, lt[i]? = some t → CurveOK t (fun s => (env s).getD i []) (tan.getD i []))
+    (p : Prog) (hR : Regimes dJ eps (env 0) p) (n : Nat) (hty : tyOf lt p = some (.V n)) (c : DVec ℝ) (hc : c.length = n) :
+    HasDerivAt (fun s => DVec.dot c (eval eps (env s) p)) (pairSum tan (backprop dJ eps (env 0) p c)) 0 :=
+  program_gradient_exact_of_regimes dJ hdJ eps heps lt env tan hE hleaf p hR n hty c hc
+
+/-! ### the property in its own terms: `.grad` along the true retraction -/
+
+/-- every contribution the reverse sweep delivers to a leaf has the storage length of that leaf -/
+theorem backprop_contribution_lengths (dJ : DJ ℝ) (hdJ : DJShape dJ) (eps : ℝ) (lt : List Ty) (env : List (DVec ℝ)) (p : Prog)
+    (ty : Ty) (go : DVec ℝ) (hty : tyOf lt p = some ty) (hgo : go.length = ty.dim) :
+    ∀ c ∈ backprop dJ eps env p go, ∀ t, lt[c.1]? = some t → c.2.length = t.dim :=
+  backprop_lengths dJ hdJ eps lt env p ty go hty hgo
+
+/-- **the pairing of all theorems above is the pairing with `.grad`**: with tangent `τ` at leaf `i` and zero elsewhere,
+`Σ ⟨contribution, tangent⟩ = ⟨gradᵢ, τ⟩`, `gradᵢ` the accumulated sum of the contributions to leaf `i`. -/
+theorem pairing_is_grad (lt : List Ty) (i n : Nat) (τ : DVec ℝ) (hi : i < lt.length) (cs : List (Nat × DVec ℝ))
+    (hlen : ∀ c ∈ cs, c.1 = i → c.2.length = n) :
+    pairSum (oneTan lt i τ) cs = DVec.dot (grad n i cs) τ :=
+  pairSum_oneTan lt i n τ hi cs hlen
+
+/-- **`X.grad` is the left-perturbation Jacobian, algebraic programs — full strength.**  For every well-typed program `p` over
+`{Inv, @, Act, Act4, Adj, AdjT, matrix()}` with vector-valued output, every valid point `env0`, every cotangent `c`, every group leaf `i`
+and direction `τ`:  `d/dt ⟨c, p(…, Exp(t·τ) @ Xᵢ, …)⟩ |_{t=0} = ⟨gradᵢ, τ⟩`, where `gradᵢ` is what the reverse sweep accumulates
+in `.grad` of leaf `i` and `Exp` is the coded exponential (`Exp₁`, the true retraction). -/
+theorem leaf_gradient_exact_algebraic (dJ : DJ ℝ) (hdJ : DJShape dJ) (eps : ℝ) (heps : 0 < eps) (lt : List Ty) (env0 : List (DVec ℝ))
+    (hP : PointOK lt env0) (i : Nat) (g : Grp) (hi : lt[i]? = some (.G g)) (τ : DVec ℝ) (hτ : τ.length = g.adim)
+    (p : Prog) (hp : p.algebraic = true) (n : Nat) (hty : tyOf lt p = some (.V n)) (c : DVec ℝ) (hc : c.length = n) :
+    HasDerivAt (fun t => DVec.dot c (eval eps (curveEnv env0 i (fun s => retrF g eps (env0.getD i []) (DVec.smul s τ)) t) p))
+      (DVec.dot (grad g.gdim i (backprop dJ eps env0 p c)) τ) 0 :=
+  leaf_gradient_exact dJ hdJ eps heps lt env0 hP i g hi τ hτ p (regimes_of_algebraic dJ eps env0 p hp) n hty c hc
+
+/-- the same for every program whose transcendental nodes are evaluated in proved regimes (see `gradient_exact_regimes_partial`) -/
+theorem leaf_gradient_exact_partial (dJ : DJ ℝ) (hdJ : DJShape dJ) (eps : ℝ) (heps : 0 < eps) (lt : List Ty) (env0 : List (DVec ℝ))
+    (hP : PointOK lt env0) (i : Nat) (g : Grp) (hi : lt[i]? = some (.G g)) (τ : DVec ℝ) (hτ : τ.length = g.adim)
+    (p : Prog) (hR : Regimes dJ eps env0 p) (n : Nat) (hty : tyOf lt p = some (.V n)) (c : DVec ℝ) (hc : c.length = n) :
+    HasDerivAt (fun t => DVec.dot c (eval eps (curveEnv env0 i (fun s => retrF g eps (env0.getD i []) (DVec.smul s τ)) t) p))
+      (DVec.dot (grad g.gdim i (backprop dJ eps env0 p c)) τ) 0 :=
+  leaf_gradient_exact dJ hdJ eps heps lt env0 hP i g hi τ hτ p hR n hty c hc
+
+/-- **`.grad` of a Euclidean / Lie-algebra leaf is the ordinary gradient** (straight line `xᵢ + t·d`), same programs -/
+theorem vector_leaf_gradient_exact_partial (dJ : DJ ℝ) (hdJ : DJShape dJ) (eps : ℝ) (heps : 0 < eps) (lt : List Ty)
+    (env0 : List (DVec ℝ)) (hP : PointOK lt env0) (i m : Nat) (hi : lt[i]? = some (.V m)) (d : DVec ℝ) (hd : d.length = m)
+    (p : Prog) (hR : Regimes dJ eps env0 p) (n : Nat) (hty : tyOf lt p = some (.V n)) (c : DVec ℝ) (hc : c.length = n) :
+    HasDerivAt (fun t => DVec.dot c (eval eps (curveEnv env0 i (fun s => DVec.add (env0.getD i []) (DVec.smul s d)) t) p))
+      (DVec.dot (grad m i (backprop dJ eps env0 p c)) d) 0 :=
+  vleaf_gradient_exact dJ hdJ eps heps lt env0 hP i m hi d hd p hR n hty c hc
+
+/-- non-vacuity of `PointOK` / `Regimes`: the program `Act(Exp(a) @ X, p)` on `SO3` — `X.grad` read through the retraction — at
+`X = (0.6, 0, 0, 0.8)`, `a = 0`, `p = (1, 2, 3)`: the `Exp` node is evaluated at the zero vector, a proved regime -/
+example : PointOK [.G .SO3, .V 3, .V 3] [[0.6, 0, 0, 0.8], [0, 0, 0], [1, 2, 3]] ∧
+    Regimes dJzero (2⁻¹) [[0.6, 0, 0, 0.8], [0, 0, 0], [1, 2, 3]] (.bin .Act .SO3 (Prog.retr .SO3 (.leaf 0) (.leaf 1)) (.leaf 2)) ∧
+    tyOf [.G .SO3, .V 3, .V 3] (.bin .Act .SO3 (Prog.retr .SO3 (.leaf 0) (.leaf 1)) (.leaf 2)) = some (.V 3) := by
+  refine ⟨⟨rfl, ?_⟩, ?_, by decide⟩
+  · intro j t hj
+    match j, hj with
+    | 0, hj =>
+      simp at hj; subst hj
+      refine ⟨rfl, fun g hg => ?_⟩
+      cases hg
+      exact ⟨by simp [UnitQ, qt, Quat.normSq]; norm_num, trivial⟩
+    | 1, hj => simp at hj; subst hj; exact ⟨rfl, fun g hg => by cases hg⟩
+    | 2, hj => simp at hj; subst hj; exact ⟨rfl, fun g hg => by cases hg⟩
+    | (k+3), hj => simp at hj
+  · simp only [Regimes, Prog.retr, eval, and_true, true_and]
+    right
+    simp [v3]
+
+/-! ## 8. Pass 3 — the batched / broadcasting layer (`Pose/Model/AutogradBatch.lean`, driver op `c04.bcall`)
+
+`broadcast_inputs` + autograd's reduction of expanded tensors, as definitions over the per-item model; compared with the code by the
+`batch` stream. -/
+
+/-- **accepted batch shapes satisfy the precondition**: if `torch.broadcast_shapes(a, b)` accepts, both shapes broadcast to the result
+(right-aligned, every dimension equal or `1`) -/
+theorem broadcast_accepts_compatible (a b c : List Nat) (h : bcast2 a b = some c) :
+    CompatRev c.reverse a.reverse ∧ CompatRev c.reverse b.reverse :=
+  bcast2_compat a b c h
+
+/-- the error path: a dimension on which the shapes disagree and neither is `1` is rejected (`none` = the code raises) -/
+theorem broadcast_rejects (x y : Nat) (a b : List Nat) (hxy : x ≠ y) (hx : x ≠ 1) (hy : y ≠ 1) :
+    bcastRev (x :: a) (y :: b) = none :=
+  bcastRev_none_cons x y a b hxy hx hy
+
+example : bcast2 [3, 1] [2] = some [3, 2] := by decide
+example : bcast2 [2, 1, 3] [4, 1] = some [2, 4, 3] := by decide
+example : bcast2 [2] [3] = none := by decide
+example : progShape [[3, 1], [2], []] (.bin .Act .SO3 (.bin .Mul .SO3 (.leaf 0) (.leaf 2)) (.leaf 1)) = some [3, 2] := by decide
+
+/-- **index safety**: the item that batch index `k` reads from a leaf of a compatible batch shape exists -/
+theorem broadcast_index_in_range (bs ls : List Nat) (k : Nat) (h : CompatRev bs.reverse ls.reverse) (hp : ∀ d ∈ ls, 0 < d) :
+    itemIndex bs ls k < numel ls :=
+  itemIndex_lt bs ls k h hp
+
+/-- a leaf that already has the broadcast shape is read item by item; a leaf of batch shape `()` is read at item `0` by everyone -/
+theorem broadcast_index_self (bs : List Nat) (k : Nat) (h : k < numel bs) : itemIndex bs bs k = k := itemIndex_self bs k h
+theorem broadcast_index_scalar (bs : List Nat) (k : Nat) : itemIndex bs [] k = 0 := itemIndex_scalar bs k
+
+/-- row-major: in batch shape `(2, 3)` flat index `4` is `(1, 1)`; a leaf of shape `(3,)` is read at `1`, of shape `(2, 1)` at `1` -/
+example : itemIndex [2, 3] [3] 4 = 1 ∧ itemIndex [2, 3] [2, 1] 4 = 1 ∧ itemIndex [2, 3] [1, 3] 5 = 2 := by decide
+
+/-- **the batched reverse sweep is the sum of the per-item sweeps**: in the pairing with any tangents `ftan` of the leaf *items*,
+`Σ ⟨contribution, tangent⟩` of the batched call equals the sum over the batch items `k` of the per-item pairing, batch item `k` seeing
+the tangents of the leaf items it reads (`tanAt`).  Broadcasting is sharing: an expanded item receives the sum. -/
+theorem batched_sweep_is_sum_of_items (dJ : DJ ℝ) (eps : ℝ) (p : Prog) (bs : List Nat) (lshapes : List (List Nat))
+    (vals : List (List (DVec ℝ))) (cots ftan : List (DVec ℝ)) (hp : p.leavesBelow lshapes.length) :
+    pairSum ftan (bcontribs dJ eps p bs lshapes vals cots) =
+      ((List.range (numel bs)).map fun k =>
+        pairSum (tanAt bs lshapes ftan k) (backprop dJ eps (envAt bs lshapes vals k) p (cots.getD k []))).sum :=
+  bcontribs_pairing dJ eps p bs lshapes vals cots ftan hp
+
+/-- **batched chain rule**: `Σ_leaf items ⟨.grad, tangent⟩ = Σ_k ⟨cot_k, forward tangent of batch item k⟩` for every well-typed program -/
+theorem batched_backprop_adjoint (dJ : DJ ℝ) (hdJ : DJShape dJ) (eps : ℝ) (lt : List Ty) (p : Prog) (bs : List Nat)
+    (lshapes : List (List Nat)) (vals : List (List (DVec ℝ))) (cots ftan : List (DVec ℝ)) (hp : p.leavesBelow lshapes.length) (ty : Ty)
+    (hty : tyOf lt p = some ty) (hE : ∀ k, k < numel bs → EnvOK lt (envAt bs lshapes vals k) (tanAt bs lshapes ftan k))
+    (hc : ∀ k, k < numel bs → (cots.getD k []).length = ty.dim) :
+    pairSum ftan (bcontribs dJ eps p bs lshapes vals cots) =
+      ((List.range (numel bs)).map fun k =>
+        DVec.dot (cots.getD k []) (tangent dJ eps (envAt bs lshapes vals k) (tanAt bs lshapes ftan k) p)).sum :=
+  batched_adjoint dJ hdJ eps lt p bs lshapes vals cots ftan hp ty hty hE hc
+
+/-- **the wrapper reduces to the core on an unbatched call**: with all batch shapes `()` the batched sweep is the per-item sweep -/
+theorem batched_sweep_unbatched (dJ : DJ ℝ) (eps : ℝ) (p : Prog) (lshapes : List (List Nat)) (vals : List (List (DVec ℝ)))
+    (cots : List (DVec ℝ)) (h : ∀ s ∈ lshapes, s = []) (hp : p.leavesBelow lshapes.length) :
+    bcontribs dJ eps p [] lshapes vals cots = backprop dJ eps (envAt [] lshapes vals 0) p (cots.getD 0 []) :=
+  bcontribs_unbatched dJ eps p lshapes vals cots h hp
 
 end PP.AD
